@@ -103,7 +103,7 @@ def generate_checked(api, options, d, rec, pid):
     return res, req
 
 
-def run_exerciser(pid, api, options, inner, res, req, d, rec, beside=()):
+def run_exerciser(pid, api, options, inner, res, req, d, rec, beside=(), prefer_unknown=False):
     out = os.path.join(d, "out")
     os.makedirs(out)
     for other in beside:          # libraries the emitted one depends on (installed first; the target's files win)
@@ -122,6 +122,13 @@ def run_exerciser(pid, api, options, inner, res, req, d, rec, beside=()):
         rec.sample(s)
     if r["violations"]:
         v = r["violations"][0]
+        if prefer_unknown:
+            # the exerciser goes on after recording a known finding's violation (C05): report a violation that is not a
+            # known finding first, so that a known one does not mask a new one of the same run
+            from harness import findings
+            known = findings.load()
+            case_like = {"api": api, "options": options, "inner": inner}
+            v = next((x for x in r["violations"] if findings.match(known, pid, x, case_like) is None), v)
         raise Violation(v["kind"], v["msg"], {"api": api, "options": options, "inner": inner, "detail": v.get("detail"),
                                               "all": [x["kind"] for x in r["violations"]]})
     return r
